@@ -23,7 +23,7 @@ CHECK = dict(
                 "8*tolerance have no judged orientation; results with an error Status have no mesh and are only counted (none occurred). "
                 "Two genuine defect families are reached at depth 2 (see findings/C07.md): Booleans whose operands contain exactly coincident instances, and "
                 "Refine after a disjoint union (Compose)."),
-    runs=[S("seq-fast", quick=600, thorough=5400, workers=8, case_timeout=120),
+    runs=[S("seq-fast", quick=1800, thorough=7200, workers=16, case_timeout=120),
           S("seq-asan", quick=600, thorough=600, workers=8, case_timeout=300, args=["--small"])],
     rule=("program = seed operand, then <= depth steps, then mode (lazy | forced); phases depth0, depth1, depth2 (and deep3 in the thorough tier) each "
           "enumerate seeds x steps^depth x 2. transitions = steps executed; states/distinct = byte-distinct exported results (IDs up to order-preserving "
